@@ -632,7 +632,33 @@ func (e *Enc) havocModifies(ct *Contract, env *SpecEnv, pre map[string]string) {
 	reach := e.reach[e.cur]
 	_ = reach
 	if ct.ModAll {
-		r.errorf("call to %s with 'modifies *' is not supported at call sites", ct.Key)
+		// 'modifies *': every persistent state (stores, bank, params, package-level variables) may change. Heap cells of the
+		// caller cannot be reached by a callee without pointer parameters (keepers hold no pointers into handler memory).
+		if fn := r.v.findFunc(ct); fn != nil {
+			for i, p := range fn.Params {
+				if i == 0 && fn.Signature.Recv() != nil {
+					continue
+				}
+				switch types.Unalias(p.Type()).Underlying().(type) {
+				case *types.Pointer, *types.Slice, *types.Map:
+					r.errorf("call to %s with 'modifies *' and reference parameter %s is not supported at call sites", ct.Key, p.Name())
+					return
+				}
+			}
+		}
+		r.callsModAll = true
+		e.ensureState("nextRef", "Int")
+		oldNR := e.getState("nextRef")
+		nr := r.decl(r.fresh("nextRef"), "Int")
+		r.assume(fmt.Sprintf("(>= %s %s)", nr, oldNR))
+		e.setStateRaw("nextRef", nr)
+		for _, st := range sortedKeys(r.stSort) {
+			if !(strings.HasPrefix(st, "kv:") || st == "bank" || strings.HasPrefix(st, "param:") || strings.HasPrefix(st, "glob:")) {
+				continue
+			}
+			e.ensureState(st, r.stSort[st])
+			e.setStateRaw(st, r.decl(r.fresh("hv_"+mangle(st)), r.stSort[st]))
+		}
 		return
 	}
 	items := e.resolveModifies(ct, env)
